@@ -1,2 +1,49 @@
-(** Theorems for C02: filled in below as the proofs land. *)
-From JL Require Import Base.Json.
+(** * C02: only single-key objects keyed by an operator name are rules; the rest is literal.
+    Statements only; proofs are in Proofs/Literal.v, Proofs/Parse.v and Proofs/Tables.v. *)
+From Coq Require Import List String NArith Bool.
+From JL Require Import Base.Json Base.Lits Base.Monad Model.Ops Model.Table Gen.OpTable Model.Eval.
+From JL Require Import Spec.Specs Proofs.Tables Proofs.Parse Proofs.Literal.
+Import ListNotations.
+Local Open Scope string_scope.
+Local Open Scope bool_scope.
+
+(** Every value that is not a single-key object keyed by one of the 35 names - primitives,
+    arrays, {}, multi-key objects, unknown or near-miss keys - evaluates to itself, with no
+    log line, whatever the data is.  ([is_operation] compares keys by exact code-point equality.) *)
+Theorem C02_literal :
+  forall r, is_operation r = false -> forall n d, apply_fuel (S n) r d = ([], Ok r).
+Proof. exact literal_evaluates_to_itself. Qed.
+Print Assumptions C02_literal.
+
+(** The keys of the three tables generated from src/op/mod.rs are pairwise distinct and are
+    exactly the 35 specified names; each key equals its entry's symbol. *)
+Theorem C02_names :
+  nodupb all_keys = true /\
+  (forallb (fun k => match name_of k with Some _ => true | None => false end) all_keys
+   && forallb (fun kn => existsb (str_eqb (fst kn)) all_keys) op_names
+   && Nat.eqb (List.length all_keys) 35 && Nat.eqb (List.length op_names) 35 = true) /\
+  (forallb (fun e => str_eqb (e_key e) (e_symbol e)) eager_table
+   && forallb (fun e => str_eqb (d_key e) (d_symbol e)) data_table
+   && forallb (fun e => str_eqb (l_key e) (l_symbol e)) lazy_meta = true).
+Proof. exact (conj keys_nodup (conj keys_are_spec_names key_is_symbol)). Qed.
+Print Assumptions C02_names.
+
+(** Every specified name is dispatched: {k: a} never parses as a literal; it is the operation
+    keyed k (or a parse error such as a wrong operand count). *)
+Theorem C02_dispatch :
+  forall k o a, name_of k = Some o ->
+    match parse (Obj [(k, a)]) with
+    | Ok p => dispatched_key p = Some k
+    | _ => True
+    end.
+Proof. exact operation_is_dispatched. Qed.
+Print Assumptions C02_dispatch.
+
+(** Non-vacuity: near misses of "var" are literals; "var" itself is not. *)
+Example C02_nonvacuous :
+  is_operation (Obj [(lit "var ", Str (lit "a"))]) = false /\
+  is_operation (Obj [(lit "VAR", Str (lit "a"))]) = false /\
+  is_operation (Obj [(lit "va", Str (lit "a"))]) = false /\
+  is_operation (Obj [(lit "var", Str (lit "a")); (lit "zz", Null)]) = false /\
+  is_operation (Obj [(lit "var", Str (lit "a"))]) = true.
+Proof. vm_compute. repeat split. Qed.
